@@ -124,6 +124,11 @@ func (k *kase) sharedValues() string {
 		places = append(places, sharedKeys[i])
 	}
 	carrier := []int{stStruct, stStruct, stMap, stMapI}[r.Intn(4)]
+	if carrier == stStruct {
+		// the empty name can not be written as a struct tag
+		top.drop("")
+		delete(T.D, "")
+	}
 	raw := func() *sp { return &sp{kind: spRaw, raw: V, rawName: form + " of S"} }
 	nextra := 0
 	sameName := 0
